@@ -1,10 +1,15 @@
 /-
 C02 — driver entry for the round-trip property: the model is the shared Yee model (`FdtdxModel/Yee.lean`,
-`forward` / `backward`); ops `fwd`, `bwd` of `YeeIO` with the probed additive source terms in the request.
+`forward` / `backward`); ops `fwd`, `bwd` of `YeeIO` with the probed additive source terms in the request, and ops
+`afwd`, `abwd` of `YeeAnisoIO` (any material tier, in particular full 3×3 tensors: `FdtdxModel/YeeAniso.lean`).
 -/
 import FdtdxModel.YeeIO
+import FdtdxModel.YeeAnisoIO
 namespace Fdtdx.C02
 
-def handle : List String → String := YeeIO.handleYee
+def handle : List String → String
+  | "afwd" :: rest => YeeAnisoIO.handleAniso ("afwd" :: rest)
+  | "abwd" :: rest => YeeAnisoIO.handleAniso ("abwd" :: rest)
+  | l => YeeIO.handleYee l
 
 end Fdtdx.C02
